@@ -1028,7 +1028,8 @@ func runC04(a *Args) error {
 	}
 
 	// ---- directed scenarios first ----
-	// (1) infraction in the current block + undelegation started in this block: Slash skips every undelegation
+	// (1) regression for the repaired defect (SlashAssets used `SlashEventHeight < BlockHeight` and skipped every undelegation):
+	// infraction in the current block + undelegation started in this block, which must be slashed
 	{
 		ctx, _ := base.CacheContext()
 		ids := &c04IDs{m: map[string]int{}}
@@ -1037,7 +1038,7 @@ func runC04(a *Args) error {
 		st := g.doCall(ctx, ids, 0, 20, g.pickPower(ctx, 0), sdkmath.LegacyNewDecWithPrec(5, 1), 1, "", stakingtypes.Infraction_INFRACTION_DOWNTIME)
 		tags := []string{}
 		if st.sameBlockAtRisk() {
-			tags = append(tags, "kf-C04-same-block-undelegation-not-slashed")
+			tags = append(tags, "regress-C04-same-block-undelegation")
 		}
 		emit([]c04Step{st}, tags)
 		cw.Count("directed.same-block")
@@ -1162,7 +1163,7 @@ func runC04(a *Args) error {
 			}
 			st := g.doCall(ctx, ids, target, event, power, factor, kind, sid, inf)
 			if st.sameBlockAtRisk() && st.Res != "err" {
-				tags = append(tags, "kf-C04-same-block-undelegation-not-slashed")
+				tags = append(tags, "regress-C04-same-block-undelegation")
 				cw.Count("gen.same-block-at-risk")
 			}
 			steps = append(steps, st)
